@@ -1,4 +1,4 @@
-import PdshVerif.Dsh.Fan
+import PdshVerif.Dsh.FanG
 import PdshVerif.Gen.Dsh
 
 /-!
@@ -39,7 +39,7 @@ is attributed to the earlier one:
   thread can perform an operation (computation is instantaneous at the granularity of the 1 s
   clock).  Spurious wake-ups of the dispatcher do not count (they may or may not happen).
 
-The Fan component is advanced by `Fan.step` itself, so every timed execution projects onto a Fan
+The Fan component is advanced by `FanG.step` itself, so every timed execution projects onto a Fan
 execution (`TimedProj.lean`) and the C03/C04 theorems carry over.
 -/
 namespace PdshVerif.Dsh.Timed
@@ -235,7 +235,7 @@ def initHost (c : Cfg) (sc : Script) : Host :=
     res := .none, reps := [], grace := sc.grace, death := some 0, reaped := false }
 
 structure St where
-  fan : Fan.St
+  fan : FanG.St
   cfg : Cfg
   scripts : List Script
   now : Nat
@@ -247,7 +247,7 @@ def defaultScript : Script := { conn := .hang, out := [], err := [] }
 def St.script (s : St) (i : Nat) : Script := s.scripts.getD i defaultScript
 def St.host (s : St) (i : Nat) : Host := s.hs.getD i (initHost s.cfg defaultScript)
 
-inductive Label | fan (l : Fan.Label) | wake (i : Nat) | scan | tick
+inductive Label | fan (l : FanG.Label) | wake (i : Nat) | scan | tick
 deriving DecidableEq, Repr
 
 def Label.spurious : Label → Bool
@@ -255,7 +255,7 @@ def Label.spurious : Label → Bool
   | _ => false
 
 /-- which host a Fan label touches, and how -/
-def fanLocal : Fan.Label → Option (Nat × Local)
+def fanLocal : FanG.Label → Option (Nat × Local)
   | .d (.create j) => some (j, .create)
   | .w i .connectBegin => some (i, .connBegin)
   | .w i .connectEnd => some (i, .connEnd)
@@ -263,7 +263,7 @@ def fanLocal : Fan.Label → Option (Nat × Local)
   | _ => none
 
 /-- the additional guard the timed world puts on a Fan label -/
-def fanGuard (s : St) : Fan.Label → Bool
+def fanGuard (s : St) : FanG.Label → Bool
   | .w i .connectEnd => (s.host i).intr || connReady (s.script i) (s.host i) s.now
   | .w i .destroyBegin => (s.host i).ph == .finished
   | .w i .destroyEnd => (s.host i).intr || (s.host i).gone s.now
@@ -275,7 +275,7 @@ def updHost (s : St) (i : Nat) (lo : Local) : List Host :=
 /-- discrete steps (everything but the passing of time) -/
 def dstep (s : St) : Label → Option St
   | .fan l =>
-      match Fan.step s.fan l with
+      match FanG.step s.fan l with
       | none => none
       | some f' =>
           if fanGuard s l then
@@ -299,9 +299,9 @@ def dstep (s : St) : Label → Option St
 
 /-- the operations whose enabledness blocks the clock -/
 def cands (s : St) : List Label :=
-  Label.scan :: ((Fan.dActs s.fan).map fun a => Label.fan (.d a)) ++
+  Label.scan :: ((FanG.dActs s.fan).map fun a => Label.fan (.d a)) ++
     (List.range s.hs.length).flatMap fun i =>
-      Label.wake i :: Fan.wActs.map fun a => Label.fan (.w i a)
+      Label.wake i :: FanG.wActs.map fun a => Label.fan (.w i a)
 
 def quiescent (s : St) : Bool := (cands s).all fun l => (dstep s l).isNone
 
@@ -309,24 +309,24 @@ def step (s : St) : Label → Option St
   | .tick => if quiescent s = true ∧ s.fan.dpc ≠ .returned then some { s with now := s.now + 1 } else none
   | l => dstep s l
 
-def init (v : Fan.Variant) (f : Nat) (c : Cfg) (scripts : List Script) : St :=
-  { fan := Fan.init v f scripts.length, cfg := c, scripts := scripts, now := 0, wake := WDOG_POLL,
+def init (v : FanG.Variant) (f : Nat) (c : Cfg) (scripts : List Script) : St :=
+  { fan := FanG.init v f scripts.length, cfg := c, scripts := scripts, now := 0, wake := WDOG_POLL,
     hs := scripts.map (initHost c) }
 
 inductive Exec (s0 : St) : List Label → St → Prop
   | nil : Exec s0 [] s0
   | snoc {ls s l s'} : Exec s0 ls s → step s l = some s' → Exec s0 (ls ++ [l]) s'
 
-def Reach (v : Fan.Variant) (f : Nat) (c : Cfg) (scripts : List Script) (s : St) : Prop :=
+def Reach (v : FanG.Variant) (f : Nat) (c : Cfg) (scripts : List Script) (s : St) : Prop :=
   ∃ ls, Exec (init v f c scripts) ls s
 
-def Final (s : St) : Prop := Fan.Final s.fan
+def Final (s : St) : Prop := FanG.Final s.fan
 
 /-! ## enabled threads (compared with the harness's runnable set) -/
 
-def dEnabled (s : St) : Bool := (Fan.dActs s.fan).any fun a => (dstep s (.fan (.d a))).isSome
+def dEnabled (s : St) : Bool := (FanG.dActs s.fan).any fun a => (dstep s (.fan (.d a))).isSome
 def wEnabled (s : St) (i : Nat) : Bool :=
-  (dstep s (.wake i)).isSome || Fan.wActs.any fun a => (dstep s (.fan (.w i a))).isSome
+  (dstep s (.wake i)).isSome || FanG.wActs.any fun a => (dstep s (.fan (.w i a))).isSome
 def gEnabled (s : St) : Bool := (dstep s .scan).isSome
 def spuriousEnabled (s : St) : Bool := (dstep s (.fan (.d (.wake true)))).isSome
 
